@@ -3,6 +3,7 @@
 From Coq Require Import String List Bool.
 From KV Require Import Lib.Str Lib.ODict Model.PreserveCore Model.Preserve
                        Proofs.PreserveStr Proofs.PreserveTree Proofs.PreserveTop.
+From KV Require Spec.RefExpand16 Model.EngineDomain07 Proofs.Shipped07Cpp.
 Import ListNotations.
 Open Scope string_scope.
 
@@ -59,3 +60,14 @@ Proof.
   - vm_compute. discriminate.
 Qed.
 Print Assumptions C01_fixed_point_nonvacuous.
+
+(* C01 for a shipped generator file, for ALL models: the hypothesis "the fresh file is well formed" of C01_fixed_point is a
+   theorem for Test.TEMPLATEStateMachine.cpp (Props/C07.v: C07_wf_out_...), so for every state-machine model with admissible
+   element names (names_ok, syntactic) regenerating over any user edits of its blocks is a fixed point.  [fresh_cpp e] are
+   the lines smgen.Generate's pipeline produces for the file (C07_wf_out: generate_file = createoutput of them). *)
+Theorem C01_fixed_point_shipped : forall (e : RefExpand16.elements) path (u : string -> list string),
+  EngineDomain07.names_ok Shipped07Cpp.t_cpp e = true -> (forall k, block_ok (u k) = true) ->
+  regen_file path (Shipped07Cpp.fresh_cpp e) (on_disk u (items_of (Shipped07Cpp.fresh_cpp e)))
+  = (on_disk u (items_of (Shipped07Cpp.fresh_cpp e)), []).
+Proof. exact Shipped07Cpp.fixed_point_cpp. Qed.
+Print Assumptions C01_fixed_point_shipped.
